@@ -314,6 +314,7 @@ func runDocCatalogue(c *Ctx, genName string, opts []option, t int, check func(do
 			c.Count("conflicting_combinations_skipped", 1)
 			return true
 		}
+		c.ChoicePoints += int64(len(idx)) + 1 // which plants, which map order
 		dj := gen.JSON(doc)
 		if !normalForm(dj) {
 			// the spec model does not round-trip this combination (e.g. headers next to a response $ref are
